@@ -175,6 +175,10 @@ where
         while let Ok((item, remainder)) =
             <T as ZvtSerializerImpl<L, E, TE>>::deserialize_tagged(bytes, tag.clone())
         {
+            // An item which consumes nothing would be found forever.
+            if remainder.len() >= bytes.len() {
+                break;
+            }
             items.push(item);
             bytes = remainder;
         }
